@@ -6,7 +6,7 @@ NAME=$1; WT=$2; shift 2
 D=/verif/seeded/$NAME; mkdir -p $D
 cp $WT/_seed/patch.diff $WT/_seed/meta.json $D/ 2>/dev/null; cp $WT/_seed/equiv.cpp $WT/_seed/equiv.sh $D/ 2>/dev/null
 LOG=$D/confirm.log; : > $LOG
-( cd $WT && git checkout -q -- src inc && git apply _seed/patch.diff && cmake --build _build -j16 2>&1 | tail -1 && ctest --test-dir _build 2>&1 | grep "tests passed" ) | tee -a $LOG
+( cd $WT && git checkout -q -- src inc && git checkout -q --detach main && ( git apply _seed/patch.diff || git apply -3 _seed/patch.diff ) && echo "patch on top of $(git -C /repo log --oneline -1 | cut -c1-7)" && cmake --build _build -j16 2>&1 | tail -1 && ctest --test-dir _build 2>&1 | grep "tests passed" ) | tee -a $LOG
 export VERIF_REPO=$WT
 cd /verif
 for p in "$@"; do
